@@ -13,7 +13,7 @@ INFO = {
         'partial-pairing models only permutations that keep mutually tied teams in their original relative order, as the property states. '
         'mu, sigma, beta, tau, kappa symbolic over the whole domain.'),
     'bounds': {
-        'quick': 'PL/BT: shapes (1,1),(2,1) x 3 orders x all perms + player reversal, (1,1,1) x 13 orders x 5 perms, (2,1,2) x 3 orders x 2 perms; TM: (1,1),(2,1) strict orders',
+        'quick': 'PL/BT: shapes (1,1),(2,1) x 3 orders x all perms + player reversal, (1,1,1) x 13 orders x 5 perms, (2,1,2) x 3 orders x 2 perms, limit_sigma on for (2,1) and two (1,1,1) orders; TM: (1,1),(2,1) strict orders',
         'thorough': '+ (1,1,1,1) x 75 orders x 23 perms for PL/BT, TM (1,1) ties, TM-part (1,1,1) strict',
     },
     'outside': ['IEEE rounding', 'n >= 5 teams, 3+ players per team', 'TM full pairing with 3+ teams'],
@@ -45,9 +45,9 @@ def _perms_for(key, ranks):
 def jobs(tier):
     out = []
 
-    def add(key, shape, ranks, budget, cost, maxperm=None):
-        out.append({'name': f'{key}-{H.shape_str(shape)}-{H.ranks_str(ranks)}', 'model': key, 'shape': list(shape),
-                    'ranks': list(ranks), 'budget': budget, 'cost': cost, 'maxperm': maxperm})
+    def add(key, shape, ranks, budget, cost, maxperm=None, ls=False):
+        out.append({'name': f'{key}-{H.shape_str(shape)}-{H.ranks_str(ranks)}' + ('-ls' if ls else ''), 'model': key, 'shape': list(shape),
+                    'ranks': list(ranks), 'budget': budget, 'cost': cost, 'maxperm': maxperm, 'ls': ls})
     for key in H.ALL:
         tm = key in H.TM
         for shape in [(1, 1), (2, 1)]:
@@ -56,6 +56,11 @@ def jobs(tier):
                     continue
                 add(key, shape, W, 300 if tier == 'quick' else 1800, 100 if tm else 5)
         if not tm:
+            # limit_sigma in force: the clamp pairs results with the deep-copied originals by position
+            for W in H.weak_orders(2):
+                add(key, (2, 1), W, 600, 60, ls=True)
+            for W in [(1, 2, 0), (0, 0, 1)]:
+                add(key, (1, 1, 1), W, 600, 60, maxperm=2, ls=True)
             for W in H.weak_orders(3):
                 add(key, (1, 1, 1), W, 300, 20)
             for W in [(0, 1, 2), (1, 0, 1), (0, 0, 0)]:
@@ -69,11 +74,11 @@ def jobs(tier):
     return out
 
 
-def _run(key, shape, ranks, perm, reverse, mk):
+def _run(key, shape, ranks, perm, reverse, mk, ls=False):
     Model = H.model_class(key)
     out = []
     for which in (0, 1):
-        m, teams = H.build_game(Model, shape, mk)
+        m, teams = H.build_game(Model, shape, mk, limit_sigma=ls)
         r = list(ranks)
         if which == 1:
             if reverse:
@@ -113,7 +118,7 @@ def run_job(spec, ctx):
     for perm, reverse in variants:
         if ctx.candidates:
             break
-        for (kind, out), eng in core.iter_paths(lambda: _run(key, shape, ranks, perm, reverse, mk), base, H.draw_fn(shape),
+        for (kind, out), eng in core.iter_paths(lambda: _run(key, shape, ranks, perm, reverse, mk, spec.get('ls', False)), base, H.draw_fn(shape),
                                                 opts={'deadline': ctx.deadline}):
             ctx.paths += 1
             if kind == 'exc':
@@ -121,7 +126,7 @@ def run_job(spec, ctx):
                 ctx.add_engine(eng)
                 continue
             a, b = out
-            H.validate_shadows(ctx, eng, out, lambda env: _run(key, shape, ranks, perm, reverse, H.float_maker(env)))
+            H.validate_shadows(ctx, eng, out, lambda env: _run(key, shape, ranks, perm, reverse, H.float_maker(env), spec.get('ls', False)))
             if ctx.vacuity['checked'] == 0:
                 H.vacuity_check(ctx, eng, core.lift(a[0][0][0]) == z3.Real(H.pname('mu', 0, 0)) + 12345)
             diffs = []
@@ -141,7 +146,7 @@ def run_job(spec, ctx):
                 r, m = eng.check(neg, timeout=60000)
                 if r == 'sat':
                     cands = [{'inputs': inp, 'model': key, 'shape': list(shape), 'ranks': list(ranks), 'perm': list(perm),
-                              'reverse': reverse} for inp in H.witness_models(eng, neg, names, H.nice_pins(shape))]
+                              'reverse': reverse, 'ls': spec.get('ls', False)} for inp in H.witness_models(eng, neg, names, H.nice_pins(shape))]
                     H.mark_last(cands)
                     ctx.ob(desc, 'sat' if cands else 'unknown', cands, sample=sample)
                 else:
@@ -152,7 +157,7 @@ def run_job(spec, ctx):
 def replay(cand):
     key, shape, ranks, perm, reverse = cand['model'], tuple(cand['shape']), tuple(cand['ranks']), tuple(cand['perm']), cand['reverse']
     inp = cand['inputs']
-    a, b = _run(key, shape, ranks, perm, reverse, H.float_maker(inp))
+    a, b = _run(key, shape, ranks, perm, reverse, H.float_maker(inp), cand.get('ls', False))
     worst = 0.0
     for ta, tb in zip(a, b):
         for (ma, sa), (mb, sb) in zip(ta, tb):
